@@ -24,7 +24,11 @@ def prepare_program(prog):
     for name in contracts.MODULES:
         m = importlib.import_module("contracts." + name)
         if hasattr(m, "prepare"):
-            out[name] = m.prepare(prog)
+            try:
+                out[name] = m.prepare(prog)
+            except KeyError as e:
+                # the contracts of this module lost their attachment; the other modules are unaffected
+                out.setdefault("_errors", []).append(f"{name}: {e}")
     return out
 
 
